@@ -203,7 +203,7 @@ pub fn compare(
     if cls_set.len() > 1 {
         rep.count("composed:diagnostics-of-several-stages");
     }
-    if m_diags.iter().any(|d| d.args().get(4).and_then(|t| t.as_str()).map_or(false, |t| t.starts_with("harness:"))) {
+    if m_diags.iter().any(|d| d.args().get(3).and_then(|t| t.as_str()).map_or(false, |t| t.starts_with("harness:"))) {
         rep.fail("K", "composed:file-index", &format!("`stagesOf` asks a parser with another file index than `run_cli_impl` sets: {}", short(&Sexp::list(m_diags.to_vec()).to_line(), 400)), cj.clone());
         return;
     }
